@@ -169,3 +169,10 @@ Definition sent_indices (cs : list call) : list nat := flat_map indices (accepte
 (* the packets of an entry *)
 Definition run_of (pkts : list pkt) (e : entry) : list pkt := firstn (e_pkts e) (skipn (e_start e) pkts).
 Definition sum_len (l : list pkt) : N := fold_right (fun q a => p_len q + a) 0 l.
+
+(* ---- prepareGSO's kernel-release gate ---------------------------------------------------------------
+   gsoMaxSegments(release): major, minor := parseRelease(release);
+       if major > 6 || (major == 6 && minor >= 9) { return 127 }; return 63
+   (the two values come from gen/Consts_WriteBatch.v).  major/minor are Go ints. *)
+Definition gso_max_segments (major minor : Z) : N :=
+  if ((6 <? major) || ((major =? 6) && (9 <=? minor)))%Z%bool then wb_segs_6_9 else wb_segs_pre_6_9.
